@@ -331,6 +331,115 @@ fn check_iter<'a>(mut it: impl Iterator<Item = &'a EntityAny>, exp: &[Option<Ent
     }
 }
 
+/// Every `Iterator` method an implementation could override (`nth`, `skip`, `count`, `last`,
+/// `fold`/`for_each`, `size_hint` after a jump) on the world-level event iterators: the same
+/// items as stepping with `next`, for jumps that end inside an archetype's log, exactly at its
+/// end, over empty logs and past the end.
+pub fn world_iterator_methods<const MODE: u8>(destroyed: bool) {
+    let mut world = WE::with_capacity(WECapacity { arch_one: 2, arch_two: 2, arch_three: 2 });
+    let n1 = sym::any_usize();
+    let n2 = sym::any_usize();
+    let n3 = sym::any_usize();
+    sym::assume(n1 <= 2 && n2 <= 2 && n3 <= 2);
+    let mut exp: [Option<EntityAny>; 6] = [None; 6];
+    let mut k = 0;
+    let mut i = 0;
+    while i < 2 {
+        if i < n1 {
+            let e = world.create::<ArchOne>((EA(i as u8),));
+            if destroyed {
+                world.destroy(e);
+            }
+            exp[k] = Some(e.into_any());
+            k += 1;
+        }
+        i += 1;
+    }
+    let mut i = 0;
+    while i < 2 {
+        if i < n2 {
+            let e = world.create::<ArchTwo>((EA(i as u8), EB(0)));
+            if destroyed {
+                world.destroy(e.into_any());
+            }
+            exp[k] = Some(e.into_any());
+            k += 1;
+        }
+        i += 1;
+    }
+    let mut i = 0;
+    while i < 2 {
+        if i < n3 {
+            let e = world.create::<ArchThree>((EC,));
+            if destroyed {
+                world.arch_three.destroy(e);
+            }
+            exp[k] = Some(e.into_any());
+            k += 1;
+        }
+        i += 1;
+    }
+    let a = sym::any_usize();
+    let b = sym::any_usize();
+    sym::assume(a <= 6 && b <= 6);
+    let mode = MODE;
+    if destroyed {
+        check_methods(|| world.iter_destroyed(), &exp, k, a, b, mode);
+    } else {
+        check_methods(|| world.iter_created(), &exp, k, a, b, mode);
+    }
+    cover!(mode != 0 || (a == 0 && n1 == 2 && b == 2 && n2 == 0 && n3 > 0), "nth(n) with n exactly the events left in the current archetype, next log empty");
+    cover!(mode != 0 || (n1 == 0 && b == 0 && k > 0), "nth(0) with the cursor on an empty log");
+    cover!(mode != 1 || (a == n1 && n1 > 0 && n2 > 0), "skip() to an archetype boundary");
+    cover!(mode != 0 || a + b >= k, "jump past the end");
+    std::mem::forget(world);
+}
+
+fn check_methods<'a, I: Iterator<Item = &'a EntityAny>>(mk: impl Fn() -> I, exp: &[Option<EntityAny>; 6], k: usize, a: usize, b: usize, mode: u8) {
+    let at = |j: usize| if j < k { exp[j] } else { None };
+    match mode {
+        0 => {
+            // a steps, then a jump of b, then the rest by stepping
+            let mut it = mk();
+            let mut j = 0;
+            while j < 6 {
+                if j < a {
+                    let _ = it.next();
+                }
+                j += 1;
+            }
+            let pos = if a < k { a } else { k };
+            let got = it.nth(b).copied();
+            assert!(got == at(pos + b), "world-level event iterator: nth() yields another item than stepping with next()");
+            let after = if pos + b < k { pos + b + 1 } else { k };
+            let (lo, hi) = it.size_hint();
+            assert!(lo == k - after && hi == Some(k - after), "world-level event iterator: size_hint after nth() is not exact");
+            assert!(it.next().copied() == at(after), "world-level event iterator: item after nth()");
+        }
+        1 => {
+            let mut it = mk().skip(a);
+            assert!(it.next().copied() == at(a), "world-level event iterator: skip() yields another item than stepping");
+            assert!(it.next().copied() == at(a + 1), "world-level event iterator: second item after skip()");
+        }
+        2 => {
+            assert!(mk().count() == k, "world-level event iterator: count()");
+            assert!(mk().skip(a).count() == if a < k { k - a } else { 0 }, "world-level event iterator: skip().count()");
+        }
+        3 => {
+            assert!(mk().last().copied() == if k > 0 { exp[k - 1] } else { None }, "world-level event iterator: last()");
+        }
+        _ => {
+            let mut j = 0;
+            let mut ok = true;
+            mk().for_each(|e| {
+                ok &= j < k && Some(*e) == exp[if j < 6 { j } else { 5 }];
+                j += 1;
+            });
+            assert!(ok && j == k, "world-level event iterator: for_each()/fold() differs from stepping");
+        }
+    }
+}
+
 /// A window between two clears that holds destructions but NO creations: the second clear must
 /// empty the destroyed log as well (archetype and world level).
 pub fn clear_destroy_only_window<const N: usize>(world_level: bool) {
@@ -367,3 +476,9 @@ harness! { fn c17_clear_arch_clone_2() unwind(6) { clear_and_clone::<2>(false) }
 harness! { fn c17_clear_world_clone_1() unwind(6) { clear_and_clone::<1>(true) } }
 harness! { fn c17_world_iter_created() unwind(9) { world_iterators(false) } }
 harness! { fn c17_world_iter_destroyed() unwind(9) { world_iterators(true) } }
+harness! { fn c17_world_iter_nth_created() unwind(9) { world_iterator_methods::<0>(false) } }
+harness! { fn c17_world_iter_nth_destroyed() unwind(9) { world_iterator_methods::<0>(true) } }
+harness! { fn c17_world_iter_skip_created() unwind(9) { world_iterator_methods::<1>(false) } }
+harness! { fn c17_world_iter_count_created() unwind(9) { world_iterator_methods::<2>(false) } }
+harness! { fn c17_world_iter_last_destroyed() unwind(9) { world_iterator_methods::<3>(true) } }
+harness! { fn c17_world_iter_for_each_created() unwind(9) { world_iterator_methods::<4>(false) } }
